@@ -30,6 +30,14 @@ class Obligation:
         self.replayable = replayable
 
 
+class TraceMisaligned(Exception):
+    """A replayed path met a different decision than the one recorded (engine error, never a verdict)."""
+
+
+class StopAtDepth(Exception):
+    """Prefix enumeration: the path reached the requested number of decisions."""
+
+
 class Path:
     """One execution path.  Forking is by re-execution: `trace` holds the decisions to follow."""
 
@@ -39,8 +47,14 @@ class Path:
         self.worklist = worklist
         self.unit = unit
         self.pc: list = []
-        self.solver = z3.Solver()
+        self.solver = z3.SolverFor("AUFLIA") if False else z3.Solver()
         self.solver.set("timeout", FEAS_TIMEOUT_MS)
+        try:
+            # feasibility / entailment only need refutations: E-matching suffices; model-based instantiation is what makes
+            # satisfiable queries with quantified axioms slow ("unknown" is treated as feasible / not entailed)
+            self.solver.set("smt.mbqi", False)
+        except z3.Z3Exception:
+            pass
         self.obls: list[Obligation] = []
         self.nfresh = 0
         self.atoms: dict = {}  # name -> ("int"|"bool"|"bytes"|"str", term/func, extra)
@@ -54,6 +68,8 @@ class Path:
         self.inline_depth = 0
         self.assumption_ids: set = set()
         self.decision_labels: list = []
+        self.stop_depth: Optional[int] = None
+        self._entailed: set = set()
 
     # ---- fresh atoms -------------------------------------------------------------------------
     def _name(self, hint: str) -> str:
@@ -161,7 +177,7 @@ class Path:
         return r != z3.unsat
 
     def entails(self, t: Any) -> bool:
-        """True only if pc => t is proved."""
+        """True only if pc => t is proved.  Positive answers are cached (the path condition only grows)."""
         if isinstance(t, bool):
             return t
         s = z3.simplify(t)
@@ -169,7 +185,30 @@ class Path:
             return True
         if z3.is_false(s):
             return False
-        return self._check(z3.Not(t), timeout=ENTAIL_TIMEOUT_MS) == z3.unsat
+        key = s.sexpr()
+        if key in self._entailed:
+            return True
+        r = self._check(z3.Not(t), timeout=ENTAIL_TIMEOUT_MS) == z3.unsat
+        if r:
+            self._entailed.add(key)
+        return r
+
+    def _tag(self, label: str, cond: Any = None) -> str:
+        if cond is None:
+            return label
+        import hashlib
+
+        return label + "~" + hashlib.md5(cond.sexpr().encode()).hexdigest()[:6]
+
+    def _follow(self, tag: str, n: int) -> int:
+        """Replay: take the recorded decision; the tag guards against a misaligned trace (never silently unsound)."""
+        ent = self.trace[self.pos]
+        d, t = (ent[0], ent[1]) if isinstance(ent, (list, tuple)) else (ent, None)
+        if t is not None and t != tag:
+            raise TraceMisaligned(f"decision {self.pos}: recorded {t!r}, now {tag!r}")
+        if d >= n:
+            raise DeadPath()
+        return d
 
     def branch(self, cond: Any, label: str = "") -> bool:
         """Decide a symbolic condition; forks by scheduling the alternative for a later run."""
@@ -182,21 +221,33 @@ class Path:
             return False
         if self.no_branch:
             raise Unsupported("branch on a quantified/bound value")
+        tag = self._tag(label, cond)
         if self.pos < len(self.trace):
-            d = self.trace[self.pos]
+            d = self._follow(tag, 2)
         else:
-            ft = self.feasible(cond)
-            ff = self.feasible(z3.Not(cond))
+            key = s.sexpr()
+            nkey = z3.simplify(z3.Not(s)).sexpr()
+            if key in self._entailed:
+                ft, ff = True, False
+            elif nkey in self._entailed:
+                ft, ff = False, True
+            else:
+                ft = self.feasible(cond)
+                ff = self.feasible(z3.Not(cond)) if ft else True
             if ft and ff:
                 d = 1
-                self.worklist.append(self.trace[: self.pos] + [0])
+                self.worklist.append(self.trace[: self.pos] + [(0, tag)])
             elif ft:
                 d = 1
+                self._entailed.add(key)
             elif ff:
                 d = 0
+                self._entailed.add(nkey)
             else:
                 raise DeadPath()
-            self.trace.append(d)
+            self.trace.append((d, tag))
+            if self.stop_depth is not None and len(self.trace) >= self.stop_depth:
+                raise StopAtDepth()
         self.pos += 1
         self.decision_labels.append((label, d))
         self.assume(cond if d else z3.Not(cond))
@@ -208,13 +259,16 @@ class Path:
             return 0
         if self.no_branch:
             raise Unsupported("choice inside a quantified body")
+        tag = self._tag(f"{label}/{n}")
         if self.pos < len(self.trace):
-            d = self.trace[self.pos]
+            d = self._follow(tag, n)
         else:
             d = 0
             for alt in range(n - 1, 0, -1):
-                self.worklist.append(self.trace[: self.pos] + [alt])
-            self.trace.append(d)
+                self.worklist.append(self.trace[: self.pos] + [(alt, tag)])
+            self.trace.append((d, tag))
+            if self.stop_depth is not None and len(self.trace) >= self.stop_depth:
+                raise StopAtDepth()
         self.pos += 1
         self.decision_labels.append((label, d))
         return d
